@@ -220,6 +220,14 @@ func (x *xpoaConsensus) CheckMinerMatch(ctx xcontext.XContext, block cctx.BlockI
 	}
 	pNode := x.smr.BlockToProposalNode(block)
 	preBlock, _ := x.election.ledger.QueryBlock(block.GetPreHash())
+	// justify是对前序区块的认证: 其id和view(即高度)由前序区块决定, 不能由区块自行声明。
+	// 下面用该view选取验证签名的候选人集合, 若view可任意填写, 出块人即可选用已被替换(或尚未生效)的候选人集合
+	if !bytes.Equal(justify.GetProposalId(), preBlock.GetBlockid()) || justify.GetProposalView() != preBlock.GetHeight() {
+		ctx.GetLog().Warn("Xpoa::CheckMinerMatch::justify doesn't certify the previous block", "logid", ctx.GetLog().GetLogId(),
+			"justifyQC:[height]", justify.GetProposalView(), "justifyQC:[id]", utils.F(justify.GetProposalId()),
+			"preBlock:[height]", preBlock.GetHeight(), "preBlock:[id]", utils.F(preBlock.GetBlockid()))
+		return false, InvalidQC
+	}
 	preConStoreBytes, _ := preBlock.GetConsensusStorage()
 	err = x.smr.GetSaftyRules().CheckProposal(pNode.In, justify,
 		x.election.GetLocalValidates(preBlock.GetTimestamp(), justify.GetProposalView(), preConStoreBytes))
